@@ -59,6 +59,7 @@ pub enum Ship {
 }
 
 struct Link {
+    cfgs: (remoc::Cfg, remoc::Cfg),
     ends: (usize, usize),
     net: Arc<Net>,
     a: RchEnd<Ship, Ship>,
@@ -93,8 +94,9 @@ async fn build_links(n_links: usize, rng: &mut Rng) -> Result<Vec<Link>, String>
     };
     let mut links = Vec::new();
     for ends in shape {
-        let (net, a, b, sched) = connect_rch_hetero::<Ship, Ship, Ship, Ship>(rch_cfg(rng), rch_cfg(rng), draw_netcfg(rng), rng).await?;
-        links.push(Link { ends: *ends, net, a, b, _sched: sched });
+        let (ca, cb) = (rch_cfg(rng), rch_cfg(rng));
+        let (net, a, b, sched) = connect_rch_hetero::<Ship, Ship, Ship, Ship>(ca.clone(), cb.clone(), draw_netcfg(rng), rng).await?;
+        links.push(Link { cfgs: (ca, cb), ends: *ends, net, a, b, _sched: sched });
     }
     Ok(links)
 }
@@ -405,8 +407,12 @@ pub fn run_handles(run: u64, seed: u64) -> RunOut {
 }
 
 fn blob_len(rng: &mut Rng, c: &remoc::Cfg) -> usize {
-    let (cs, rb) = (c.chunk_size as usize, c.receive_buffer as usize);
-    match rng.below(11) {
+    let (cs, rb, md) = (c.chunk_size as usize, c.receive_buffer as usize, c.max_data_size);
+    match rng.below(15) {
+        11 => md,
+        12 => md + 1,
+        13 => md + cs,
+        14 => md + cs + 1,
         0 => 0,
         1 => 1,
         2 => cs - 1,
@@ -429,16 +435,22 @@ pub fn run_lazy(run: u64, seed: u64) -> RunOut {
     let hops = 1 + rng.usize_below(4);
     let provider_fate = *rng.pick(&["keep", "keep", "keep", "drop-before-fetch", "new"]);
     let n_fetchers = if blob { 1 + rng.usize_below(3) } else { 1 };
+    // the first fetch attempt is dropped after a few polls and retried (a fetch is resumable)
+    let cancel_first: Option<u32> = rng.chance(30).then(|| 1 + rng.below(12) as u32);
     let cut: Option<(FaultKind, bool, usize)> = rng.chance(25).then(|| (*rng.pick(&[FaultKind::SinkError, FaultKind::StreamError, FaultKind::Eof]), rng.chance(50), rng.usize_below(50)));
     let h1 = *rng.pick(&[0u64, 0, 20, 50]);
     let mut out = RunOut::default();
     let panics0 = crate::mem::panic_count();
     let prefix = crate::clock::thread_prefix();
     install_h1(rng.fork(1), h1, 0);
-    let mut plan = json!({"run": run, "seed": seed, "scenario": if blob { "lazy_blob" } else { "lazy" }, "links": n_links, "hops": hops, "provider": provider_fate, "fetchers": n_fetchers, "connection_cut": format!("{cut:?}"), "h1_pct": h1});
+    let mut plan = json!({"run": run, "seed": seed, "scenario": if blob { "lazy_blob" } else { "lazy" }, "links": n_links, "hops": hops, "provider": provider_fate, "fetchers": n_fetchers, "first_fetch_cancelled_after_polls": cancel_first, "connection_cut": format!("{cut:?}"), "h1_pct": h1});
     let res: Result<(), String> = run_virtual(seed, async {
         let mut links = build_links(n_links, &mut rng).await?;
-        let lcfg = rch_cfg(&mut rng);
+        // lengths around the thresholds of one of the endpoints of one of the connections
+        let lcfg = {
+            let l = &links[rng.usize_below(links.len())];
+            if rng.chance(50) { l.cfgs.0.clone() } else { l.cfgs.1.clone() }
+        };
         let len = blob_len(&mut rng, &lcfg);
         plan["len"] = json!(len);
         let data = payload(seed, len);
@@ -497,6 +509,10 @@ pub fn run_lazy(run: u64, seed: u64) -> RunOut {
                     .map(|(i, c)| {
                         crate::sched::spawn(async move {
                             let l = c.len().ok();
+                            if let (Some(k), 0) = (cancel_first, i) {
+                                let _ = crate::sched::CancelAt::new(c.get(), k).await;
+                                crate::simnet::bump_progress();
+                            }
                             let first = c.get().await.map(|mut d| d.copy_to_bytes(d.remaining()).to_vec()).map_err(|e| format!("{e:?}"));
                             let again = if i % 2 == 0 { c.get().await.map(|mut d| d.copy_to_bytes(d.remaining()).to_vec()).map_err(|e| format!("{e:?}")) } else { c.into_inner().await.map(|mut d| d.copy_to_bytes(d.remaining()).to_vec()).map_err(|e| format!("{e:?}")) };
                             crate::simnet::bump_progress();
@@ -524,6 +540,10 @@ pub fn run_lazy(run: u64, seed: u64) -> RunOut {
             }
             Ship::L(l) => {
                 let t = crate::sched::spawn(async move {
+                    if let Some(k) = cancel_first {
+                        let _ = crate::sched::CancelAt::new(l.get(), k).await;
+                        crate::simnet::bump_progress();
+                    }
                     let first = l.get().await.map(|v| (v.id, v.data.clone(), v.valid())).map_err(|e| format!("{e:?}"));
                     let again = l.into_inner().await.map(|v| (v.id, v.data.clone(), v.valid())).map_err(|e| format!("{e:?}"));
                     crate::simnet::bump_progress();
@@ -607,7 +627,8 @@ pub fn run_lazy(run: u64, seed: u64) -> RunOut {
         out.item("lazy_kinds", format!("{}/{} hops/{}", if blob { "blob" } else { "value" }, hops, provider_fate));
         out.item("lazy_paths", format!("{path:?}"));
         let mut hh = Fnv::new();
-        hh.add_str(&format!("{blob}{len}{path:?}{provider_fate}{cut:?}{n_fetchers}"));
+        hh.add_str(&format!("{blob}{len}{path:?}{provider_fate}{cut:?}{n_fetchers}{cancel_first:?}"));
+        out.count("lazy_runs_with_cancelled_first_fetch", cancel_first.is_some() as u64);
         out.case_hash = Some(hh.get());
         if cut.is_none() {
             for l in &links {
